@@ -376,33 +376,60 @@ def canonNilFields : List (String × Bool × GoVal) → List (String × Bool × 
   | (k, om, v) :: t => (k, om, canonNil v) :: canonNilFields t
 end
 
-/- JSON equality up to object member order (strict: no member may be dropped) -/
-mutual
-def jsub : Json → Json → Bool
-  | .null, .null => true
-  | .bool a, .bool b => a == b
-  | .num a, .num b => a == b
-  | .str a, .str b => a == b
-  | .arr xs, .arr ys => jsubList xs ys
-  | .obj ms, .obj ms' => jsubMembers ms ms'
-  | _, _ => false
-def jsubList : List Json → List Json → Bool
-  | [], [] => true
-  | x :: xs, y :: ys => jsub x y && jsubList xs ys
-  | _, _ => false
-def jsubMembers : List (String × Json) → List (String × Json) → Bool
-  | [], _ => true
-  | (k, v) :: t, ms' =>
-    (match Json.lookup k ms' with
-     | some v' => jsub v v'
-     | none => false) && jsubMembers t ms'
-end
-
-/-- same JSON document up to member order: mutual containment -/
-def jsame (a b : Json) : Bool := jsub a b && jsub b a
-
 /-- the two values encode to the same JSON once nil and empty collections are identified -/
 def encSameModNil (a b : GoVal) : Bool :=
-  jsame (GoVal.goEncode (canonNil a)) (GoVal.goEncode (canonNil b))
+  Json.beq (GoVal.goEncode (canonNil a)) (GoVal.goEncode (canonNil b))
+
+/-! ### same active union branches (side condition of `C13_enc_eq_implies_equals_partial`) -/
+
+def ptrBoth (nullable : Bool) (p : GoVal → GoVal → Bool) (a b : GoVal) : Bool :=
+  if nullable then (match a, b with | .ptr x, .ptr y => p x y | _, _ => true) else p a b
+
+def alignedList (f : GoVal → GoVal → Bool) : List GoVal → List GoVal → Bool
+  | x :: xs, y :: ys => f x y && alignedList f xs ys
+  | _, _ => true
+
+def alignedEntries (f : GoVal → GoVal → Bool) (other : List (String × GoVal)) :
+    List (String × GoVal) → Bool
+  | [] => true
+  | (k, x) :: t =>
+    (match lookupV k other with | some y => f x y | none => true) && alignedEntries f other t
+
+def alignedFields (f : Ty → GoVal → GoVal → Bool) :
+    List Field → List (String × Bool × GoVal) → List (String × Bool × GoVal) → Bool
+  | fd :: fds, (_, _, x) :: xs, (_, _, y) :: ys => f fd.ty x y && alignedFields f fds xs ys
+  | _, _, _ => true
+
+def alignedBranches (f : Ty → GoVal → GoVal → Bool) :
+    List Field → List (String × GoVal) → List (String × GoVal) → Bool
+  | fd :: fds, (_, x) :: xs, (_, y) :: ys =>
+    (x.isNil == y.isNil) && f fd.ty x y && alignedBranches f fds xs ys
+  | _, _, _ => true
+
+/-- at every position holding a struct generated from a disjunction, the two values have the
+    same branches set (for decoded values this is what the branch choice of the custom
+    unmarshallers gives when the branches' encodings are disjoint) -/
+def unionsAligned : Nat → Schemas → Ty → GoVal → GoVal → Bool
+  | 0, _, _, _, _ => true
+  | fuel + 1, ss, t, a, b =>
+    match classify ss t with
+    | .arr e =>
+      (match a, b with
+       | .slice xs, .slice ys => alignedList (unionsAligned fuel ss e) xs ys
+       | _, _ => true)
+    | .map e =>
+      (match a, b with
+       | .gomap xs, .gomap ys => alignedEntries (unionsAligned fuel ss e) ys xs
+       | _, _ => true)
+    | .struct fields nullable =>
+      ptrBoth nullable (fun x y => match x, y with
+        | .struct fa, .struct fb => alignedFields (unionsAligned fuel ss) fields fa fb
+        | _, _ => true) a b
+    | .union fields nullable =>
+      ptrBoth nullable (fun x y => match x, y with
+        | .union ba, .union bb => alignedBranches (unionsAligned fuel ss) fields ba bb
+        | _, _ => true) a b
+    | .alias t' => unionsAligned fuel ss t' a b
+    | _ => true
 
 end Cog.Sem
